@@ -1,11 +1,13 @@
 import Driver.QuadCmd
 import Driver.MeshCmd
 import Driver.FormulaCmd
+import Driver.SLCmd
 /- stbem-driver: one protocol line in, one canonical line out. -/
 open Driver
 
 structure St where
   mesh : Option Stbem.Mesh.Mesh := none
+  sl : SLState := {}
 
 def dispatch (st : St) (line : String) : St × String :=
   let args := (line.trimAscii.toString.splitOn " ").filter (· ≠ "")
@@ -13,6 +15,7 @@ def dispatch (st : St) (line : String) : St × String :=
   | [] => (st, "")
   | "q1" :: _ | "q2" :: _ | "q3" :: _ | "slo" :: _ => (st, quadCmd args)
   | "fm" :: _ => (st, formulaCmd args)
+  | "sl" :: _ => let r := slCmd st.sl args; ({ st with sl := r.1 }, r.2)
   | "mesh" :: _ => let r := meshCmd st.mesh args; ({ st with mesh := r.1 }, r.2)
   | _ => (st, "bad-op")
 
